@@ -75,3 +75,36 @@ contract(
     emits=["read", "put"],
     from_property="deliver every byte the final stage wrote to stdout, once and in order (producer side: nothing read is dropped; `closed` is set after the last put)",
 )
+
+
+# ---- the byte-oriented readers and the chunk iterator: same discipline -------------------------------------------------------
+def _yield_log(R, frame, val, ynode):
+    from pyvc.core import mk_none
+    R.ctx.emit_log(R, "yield", val)
+    return mk_none()
+
+
+CAT_EXT = dict(EXT)
+CAT_EXT.update({"cat": Ext(ret=Bytes, pure=True, uf="cat")})
+CAT_AXIOMS = {
+    "cat-of-nothing": "len(cat(log('get')[:0])) == 0",
+    "cat-appends-the-next-chunk": "forall_chunks(lambda g: forall_bytes(lambda c: cat(g + [c]) == cat(g) + c))",
+}
+for _fn in ("read", "readline"):
+    contract(
+        R_ + "QueueReader." + _fn, "C06", params=dict(self=QR, size=Int), externals=CAT_EXT, returns=Bytes, axioms=CAT_AXIOMS,
+        locals={"buf": Bytes, "line": Bytes, "nl": Bytes},
+        loops={"while#1": dict(invariant={"the-buffer-is-exactly-what-was-dequeued-so-far": "buf == cat(log('get'))"})},
+        ensures={"returns-exactly-the-bytes-it-dequeued-in-order": "result == cat(log('get'))"},
+        emits=["get", "observe"],
+        from_property="deliver every byte ... once and in order (read / readline hand out the concatenation of the chunks they took from the queue)",
+    )
+contract(
+    R_ + "QueueReader.iterqueue", "C06", params=dict(self=QR), externals=dict(EXT, **{"<yield>": Ext(event="yield", log_type=Bytes, note="type of the yield log")}),
+    hooks={"yield": _yield_log},
+    locals={"chunk": Bytes},
+    loops={"while#1": dict(invariant={"every-dequeued-chunk-was-yielded-in-order": "log('yield') == log('get')"})},
+    ensures={"yields-exactly-the-dequeued-chunks-in-order": "log('yield') == log('get')"},
+    emits=["get", "observe", "yield"],
+    from_property="deliver every byte ... once and in order ($() / @$() drain the reader through iterqueue)",
+)
